@@ -77,17 +77,17 @@ type Op struct {
 // Opts are Repository options that must not change any modelled behaviour.
 type Opts struct {
 	SkipGC  bool
-	Warn    bool // HandleWarning set; the registry sends Warning headers
-	RefPage int  // ReferrerListPageSize
-	TagPage int  // TagListPageSize
-	MaxMeta bool // MaxMetadataBytes = 1 MiB instead of the default
+	Warn    bool  // HandleWarning set; the registry sends Warning headers
+	RefPage int   // ReferrerListPageSize
+	TagPage int   // TagListPageSize
+	MaxMeta int64 // MaxMetadataBytes (0 = default)
 }
 
 func (o Opts) String() string {
-	return fmt.Sprintf("g%sw%sr%dt%dm%s", bit(o.SkipGC), bit(o.Warn), o.RefPage, o.TagPage, bit(o.MaxMeta))
+	return fmt.Sprintf("g%sw%sr%dt%dm%d", bit(o.SkipGC), bit(o.Warn), o.RefPage, o.TagPage, o.MaxMeta)
 }
 
-var optsRx = regexp.MustCompile(`^g([01])w([01])r([0-9]+)t([0-9]+)m([01])$`)
+var optsRx = regexp.MustCompile(`^g([01])w([01])r([0-9]+)t([0-9]+)m([0-9]+)$`)
 
 func parseOpts(s string) Opts {
 	m := optsRx.FindStringSubmatch(s)
@@ -96,7 +96,8 @@ func parseOpts(s string) Opts {
 	}
 	r, _ := strconv.Atoi(m[3])
 	t, _ := strconv.Atoi(m[4])
-	return Opts{SkipGC: m[1] == "1", Warn: m[2] == "1", RefPage: r, TagPage: t, MaxMeta: m[5] == "1"}
+	mm, _ := strconv.ParseInt(m[5], 10, 64)
+	return Opts{SkipGC: m[1] == "1", Warn: m[2] == "1", RefPage: r, TagPage: t, MaxMeta: mm}
 }
 
 type Case struct {
@@ -325,9 +326,7 @@ func newRepo(c *Case, g *fr.Registry) *remote.Repository {
 		ReferrerListPageSize: c.O.RefPage,
 		TagListPageSize:      c.O.TagPage,
 	}
-	if c.O.MaxMeta {
-		repo.MaxMetadataBytes = 1 << 20
-	}
+	repo.MaxMetadataBytes = c.O.MaxMeta
 	switch c.Rst {
 	case 1:
 		repo.SetReferrersCapability(true)
@@ -554,6 +553,14 @@ func accurateFor(d fr.Desc, b []byte) bool { return d.DG == sha(b) && d.SZ == in
 // its effect; "" = no prediction for the result (state effect known);
 // "?" = the caller's descriptor is inaccurate and the effect is not fixed by the
 // property: the history is not judged any further.
+func (c *Case) overLimit(n int) bool {
+	l := c.O.MaxMeta
+	if l <= 0 {
+		l = 4 * 1024 * 1024
+	}
+	return int64(n) > l
+}
+
 func (t *truth) expect(c *Case, o Op) string {
 	isMan := isManifest(c, o.D.MT)
 	var content []byte
@@ -567,6 +574,9 @@ func (t *truth) expect(c *Case, o Op) string {
 			return "err"
 		}
 		if isMan {
+			if indexable(o.D.MT) && c.overLimit(len(content)) {
+				return "?" // refused by MaxMetadataBytes unless the Referrers API is known to be there
+			}
 			t.mans[o.D.DG] = man{o.D.MT, content}
 			if !jsonOK() && indexable(o.D.MT) {
 				return "" // stored, but the client may fail to decode it afterwards
@@ -585,6 +595,9 @@ func (t *truth) expect(c *Case, o Op) string {
 		}
 		if k == "digest" && rf != o.D.DG {
 			return "err"
+		}
+		if indexable(o.D.MT) && c.overLimit(len(content)) {
+			return "?"
 		}
 		t.mans[o.D.DG] = man{o.D.MT, content}
 		if k == "tag" {
@@ -624,13 +637,16 @@ func (t *truth) expect(c *Case, o Op) string {
 		if isMan {
 			m, ok := t.mans[o.D.DG]
 			if !ok {
+				if indexable(o.D.MT) && c.overLimit(int(o.D.SZ)) {
+					return "err" // refused by size before anything is asked
+				}
 				return "err:nf"
 			}
 			if !accurateFor(o.D, m.b) || m.mt != o.D.MT {
 				return "?"
 			}
-			if indexable(m.mt) && !c.isJSON(m.b) {
-				return "?" // the client decodes the manifest before deleting it (referrers bookkeeping)
+			if indexable(m.mt) && (!c.isJSON(m.b) || c.overLimit(len(m.b))) {
+				return "?" // the client reads and decodes the manifest before deleting it (referrers bookkeeping)
 			}
 			delete(t.mans, o.D.DG)
 			for k, v := range t.tags {
@@ -664,6 +680,10 @@ func (t *truth) expect(c *Case, o Op) string {
 		d := fr.ShowDesc(fr.Desc{MT: m.mt, DG: dg, SZ: int64(len(m.b))})
 		if o.Kind == "resolve" {
 			return "desc:" + d
+		}
+		if c.overLimit(len(m.b)) {
+			// a manifest over MaxMetadataBytes may be refused, but never be returned truncated
+			return "err|db:" + d + "," + common.Hex(string(m.b))
 		}
 		return "db:" + d + "," + common.Hex(string(m.b))
 	case "bresolve", "bfetchref":
@@ -730,6 +750,10 @@ func (t *truth) expect(c *Case, o Op) string {
 				}
 			}
 		}
+		if c.O.MaxMeta > 0 && c.O.MaxMeta < 1<<16 {
+			// the referrers index itself may not fit a small MaxMetadataBytes: refused, never cut
+			return "err|descs:" + fr.ShowDescs(l)
+		}
 		return "descs:" + fr.ShowDescs(l)
 	}
 	return ""
@@ -741,6 +765,9 @@ func agrees(expect, got string) bool {
 	}
 	if expect == "err" {
 		return strings.HasPrefix(got, "err:")
+	}
+	if strings.HasPrefix(expect, "err|") {
+		return strings.HasPrefix(got, "err:") || got == expect[4:]
 	}
 	return expect == got
 }
@@ -1532,7 +1559,10 @@ func genCase(r *common.Rand, nops int) *Case {
 	c := &Case{Main: common.Pick(r, []string{"app/web", "hello-world", "a/b/c"}), Other: common.Pick(r, []string{"lib/base", "src"})}
 	c.Prof = fr.Profile{DigHdr: r.Chance(2, 3), Range: r.Bool(), CLen: r.Chance(3, 4), Mount: r.Bool(), Referrers: r.Bool()}
 	c.Plain = r.Bool()
-	c.O = Opts{SkipGC: r.Bool(), Warn: r.Chance(1, 3), MaxMeta: r.Chance(1, 4)}
+	c.O = Opts{SkipGC: r.Bool(), Warn: r.Chance(1, 3)}
+	if r.Chance(1, 6) {
+		c.O.MaxMeta = 1 << 20
+	}
 	if r.Chance(1, 3) {
 		c.O.RefPage = 1 + r.Intn(5)
 	}
@@ -1576,6 +1606,14 @@ func genCase(r *common.Rand, nops int) *Case {
 			b = nil
 		}
 		c.Pool = append(c.Pool, PoolItem{Bytes: b, Digest: sha(b), Subj: "N"})
+	}
+	// MaxMetadataBytes around the size of one of the manifests: limit-1, limit, limit+1
+	if r.Chance(1, 4) {
+		c.O.MaxMeta = int64(len(c.Pool[r.Intn(nman)].Bytes)) + int64(r.Intn(3)) - 1
+		if c.O.MaxMeta <= 0 {
+			c.O.MaxMeta = 1
+		}
+		run.Count("opt:limit-near-manifest-size")
 	}
 	for i := nman; i < len(c.Pool); i++ {
 		if r.Bool() {
@@ -1718,7 +1756,8 @@ func genCase(r *common.Rand, nops int) *Case {
 			}
 			pushed = append(pushed, d)
 		case x < 95:
-			if !c.Prof.Referrers || c.Rst == 2 {
+			// (the referrers index document itself is not modelled byte-wise: no tiny limits here)
+			if !c.Prof.Referrers || c.Rst == 2 || (c.O.MaxMeta > 0 && c.O.MaxMeta < 1<<16) {
 				continue
 			}
 			o = Op{Kind: "preds", D: someDesc(), CI: -1}
